@@ -116,3 +116,80 @@ def run_stats(events):
 def case_brief(case):
     keys = ("id", "solver", "dim", "dyn", "cx", "t0", "t1", "dtmin", "dtmax", "tol", "rhs", "y0", "fail_at", "lip", "acc", "pair")
     return {k: case[k] for k in keys if k in case}
+
+
+def annotate_snaps(events):
+    """pure look-ahead annotation of step() snapshots for Trace_IvpProtocol: what the call made the iterator do and
+    the next snapshot of the same run; returns the events (reset / snap / item / none / err only)"""
+    import vlib as _v
+    zero = _v.float_to_pair(0.0)
+    out = []
+    run = []
+
+    def flush():
+        ev = [e for e in run if e["ev"] in ("reset", "snap", "item", "none", "err")]
+        snaps = [k for k, e in enumerate(ev) if e["ev"] == "snap"]
+        for idx, p in enumerate(snaps):
+            e = ev[p]
+            nx = ev[p + 1] if p + 1 < len(ev) else {"ev": "none"}
+            e["nxt"] = {"snap": "redo"}.get(nx["ev"], nx["ev"])
+            e["nt"] = nx["t"] if nx["ev"] == "item" else zero
+            e["errkind"] = nx.get("kind", "") if nx["ev"] == "err" else ""
+            if idx + 1 < len(snaps):
+                n = ev[snaps[idx + 1]]
+                e.update({"has_next": True, "n_time": n["time"], "n_dt": n["dt"], "n_ym": n["ym"], "n_vlen": n["vlen"]})
+            else:
+                e.update({"has_next": False, "n_time": zero, "n_dt": zero, "n_ym": 0, "n_vlen": 0})
+        out.extend(ev)
+
+    for e in events:
+        if e["ev"] == "reset" and run:
+            flush()
+            run = []
+        run.append(dict(e))
+    if run:
+        flush()
+    return out
+
+
+def validate_design(ctx, events, tag="dsn", nshards=8, timeout=1500):
+    """validate annotated snapshot traces against IvpProtocol over F64; returns list of drifting runs
+    [(case id, event)] - a run that the design does not explain is removed and the rest re-validated"""
+    import os as _os
+    shards = shard_events(events, nshards)
+    drifts = []
+    total_runs = 0
+    for sh in shards:
+        total_runs += sum(1 for e in sh if e["ev"] == "reset")
+    for rnd in range(6):
+        jobs = []
+        live = [sh for sh in shards if sh]
+        if not live:
+            break
+        for k, sh in enumerate(live):
+            p = ctx.path("%s-shard-%d.ndjson" % (tag, k))
+            vlib.write_ndjson(p, sh)
+            jobs.append({"module": "Trace_IvpProtocol", "cfg": "Trace_IvpProtocol.cfg", "env": {"VH_OBS": p}, "timeout": timeout,
+                         "metadir": ctx.path("md-%s-%d" % (tag, k)), "workers": 1})
+        results = vlib.tlc_parallel(jobs, max_procs=nshards)
+        nxt = []
+        for sh, r in zip(live, results):
+            ctx.add_tlc(r)
+            reached = r.tagged("REACHED")
+            if not reached:
+                raise vlib.ToolError("Trace_IvpProtocol printed no REACHED line")
+            got, n = reached[0][1], reached[0][2]
+            if got >= n:
+                nxt.append([])
+                continue
+            bad = sh[got]                     # first event that no design action explains (0-based index = got)
+            cid = bad["c"]
+            drifts.append((cid, bad))
+            nxt.append([e for e in sh if e["c"] != cid])
+        shards = nxt
+    for k in range(nshards):
+        try:
+            _os.remove(ctx.path("%s-shard-%d.ndjson" % (tag, k)))
+        except OSError:
+            pass
+    return drifts, total_runs
